@@ -590,6 +590,12 @@ func (r *reconstructor) reconstructMap(rv reflect.Value) error {
 				continue
 			}
 
+			// Any other slice: its elements can hold binary data.
+			err := r.reconstructValue(mv)
+			if err != nil {
+				return err
+			}
+
 		default:
 			err := r.reconstructValue(mv)
 			if err != nil {
